@@ -65,6 +65,8 @@ type Task struct {
 	Steps   int
 	fn      func()
 	panicV  interface{}
+	daemon  bool // the timer task: runs only when a fired timer is waiting, does not keep Run alive
+	parked  bool // timer task only: waiting for a timer to fire (inside a timer function it is a task like any other)
 }
 
 // Sched is the cooperative scheduler.
@@ -96,6 +98,9 @@ type Sched struct {
 	travel    int64
 	fnCount   int
 	BlockedRW int // probe: a writer had to wait behind readers / reader behind pending writer
+	timers    []*Timer
+	stopTimer bool
+	TimersRun int // probe: timer functions executed
 }
 
 // S is the installed scheduler (nil: shims are pass-through).
@@ -140,6 +145,9 @@ func (s *Sched) enabled(t *Task) bool {
 	if t.done {
 		return false
 	}
+	if t.daemon && t.parked {
+		return s.timerQueued() != nil
+	}
 	if t.blocked == nil {
 		return true
 	}
@@ -151,6 +159,10 @@ func (s *Sched) enabled(t *Task) bool {
 
 // Run executes all tasks to completion under the seeded schedule.
 func (s *Sched) Run() {
+	// the task that runs timer functions (time.AfterFunc in instrumented code): like the runtime's timer goroutines
+	// it exists from the start, is runnable only while a fired timer waits, and does not keep the run alive
+	td := s.Go("timers", s.timerLoop)
+	td.daemon, td.parked = true, true
 	n := len(s.tasks)
 	for _, t := range s.tasks {
 		t.vc = make([]uint32, n)
@@ -194,13 +206,15 @@ func (s *Sched) Run() {
 		alive := 0
 		for _, t := range s.tasks {
 			if !t.done {
-				alive++
+				if !t.daemon || !t.parked {
+					alive++
+				}
 				if s.enabled(t) {
 					en = append(en, t)
 				}
 			}
 		}
-		if alive == 0 {
+		if alive == 0 && len(en) == 0 {
 			break
 		}
 		if len(en) == 0 {
@@ -255,6 +269,127 @@ func (s *Sched) Run() {
 		s.cur = nil
 	}
 	s.cur = nil
+	if !td.done && s.Deadlock == "" && !s.Overrun {
+		// let the timer task's goroutine end
+		s.stopTimer = true
+		s.cur = td
+		td.wake <- struct{}{}
+		<-s.back
+		s.cur = nil
+	}
+}
+
+// ---- simulated timers ----
+
+// Timer is the shim for *time.Timer values created by time.AfterFunc in instrumented code. It fires when the simulated
+// clock is moved to or past its deadline; its function then runs in the timer task whenever the scheduler picks it,
+// so everything that can happen between "the timer fired" and "its function ran" is explored.
+type Timer struct {
+	owner    *Sched
+	real     *time.Timer
+	deadline time.Time
+	f        func()
+	state    int // 0 armed, 1 fired and waiting for the timer task, 2 function started, 3 stopped
+	vc       []uint32
+}
+
+// AfterFunc is the shim for time.AfterFunc.
+func AfterFunc(d time.Duration, f func()) *Timer {
+	s, t := sim()
+	if s == nil {
+		return &Timer{real: time.AfterFunc(d, f)}
+	}
+	tm := &Timer{owner: s, deadline: s.now.Add(d), f: f, vc: append([]uint32(nil), t.vc...)}
+	t.vc[t.ID]++
+	s.timers = append(s.timers, tm)
+	s.fireDue()
+	return tm
+}
+
+// Stop is the shim for (*time.Timer).Stop: true if the call stops the timer, false if it has already fired or been stopped.
+func (tm *Timer) Stop() bool {
+	if tm.real != nil {
+		return tm.real.Stop()
+	}
+	if tm.owner != S {
+		return false
+	}
+	if tm.state == 0 {
+		tm.state = 3
+		return true
+	}
+	return false
+}
+
+// Reset is the shim for (*time.Timer).Reset.
+func (tm *Timer) Reset(d time.Duration) bool {
+	if tm.real != nil {
+		return tm.real.Reset(d)
+	}
+	s, t := sim()
+	if s == nil || tm.owner != s {
+		return false
+	}
+	active := tm.state == 0
+	tm.state, tm.deadline = 0, s.now.Add(d)
+	tm.vc = append([]uint32(nil), t.vc...)
+	t.vc[t.ID]++
+	found := false
+	for _, x := range s.timers {
+		if x == tm {
+			found = true
+		}
+	}
+	if !found {
+		s.timers = append(s.timers, tm)
+	}
+	s.fireDue()
+	return active
+}
+
+// Until and Since are the shims for time.Until / time.Since.
+func Until(t time.Time) time.Duration { return t.Sub(Now()) }
+func Since(t time.Time) time.Duration { return Now().Sub(t) }
+
+func (s *Sched) fireDue() {
+	for _, tm := range s.timers {
+		if tm.state == 0 && !tm.deadline.After(s.now) {
+			tm.state = 1
+		}
+	}
+}
+
+func (s *Sched) timerQueued() *Timer {
+	for _, tm := range s.timers {
+		if tm.state == 1 {
+			return tm
+		}
+	}
+	return nil
+}
+
+func (s *Sched) timerLoop() {
+	t := s.cur
+	for {
+		if s.stopTimer {
+			return
+		}
+		tm := s.timerQueued()
+		if tm == nil {
+			// park: not enabled until a timer fires
+			t.parked = true
+			s.back <- struct{}{}
+			<-t.wake
+			continue
+		}
+		t.parked = false
+		tm.state = 2
+		join(t.vc, tm.vc) // starting a timer happens before its function runs
+		t.vc[t.ID]++
+		s.TimersRun++
+		s.logf("%d@timer", t.ID)
+		tm.f()
+	}
 }
 
 // Panics returns the panic values of tasks that panicked.
@@ -350,6 +485,7 @@ func ClockSet(t time.Time) {
 		}
 		s.travel += int64(d)
 		s.now = t
+		s.fireDue()
 	}
 }
 
